@@ -23,6 +23,8 @@ var checks = map[string]func(*core.Ctx) int{
 	"C13": core.CheckC13,
 	"C14": core.CheckC14,
 	"C15": core.CheckC15,
+	"C16": core.CheckC16,
+	"C17": core.CheckC17,
 	"C18": core.CheckC18,
 	"C19": core.CheckC19,
 }
